@@ -533,6 +533,7 @@ def replay_driver(rev, frames):
 def run_replay(R, mp, rev, arg, frames, case, what):
     """the same frames to the real driver and to the model"""
     d = replay_driver(rev, frames)
+    sock = d._sock
     kind, trees, js, jok = "done", {}, None, None
     try:
         with alarm(20):
@@ -550,7 +551,7 @@ def run_replay(R, mp, rev, arg, frames, case, what):
     except Exception:                 # noqa: BLE001
         kind = "fail"
     requests = []
-    for f in d._sock.sent:
+    for f in sock.sent:
         svc, words = f[46], f[47]
         requests.append((svc, bytes(f[48:48 + 2 * words]), bytes(f[48 + 2 * words:])))
     m = model_script(mp, rev, arg, frames, fuel=5000)
